@@ -46,7 +46,8 @@ def gen_case(rng):
         r = rng.random()
         if r < 0.68:
             eid += 1
-            ops.append("build e=%d res=r batch=%d dir=%s" % (eid, rng.choice([0, 1, 1, 1, 2, 3, 4]), rng.choice(["in", "out"])))
+            rt = " rtype=%s" % rng.choice(["web", "rpc", "cache", "common"]) if rng.random() < 0.25 else ""   # classification only (seed C01-e)
+            ops.append("build e=%d res=r batch=%d dir=%s%s" % (eid, rng.choice([0, 1, 1, 1, 2, 3, 4]), rng.choice(["in", "out"]), rt))
             open_.append(eid)
         elif r < 0.80 and open_:
             e = open_.pop(rng.randrange(len(open_)))
